@@ -946,9 +946,11 @@ class list_t(object):
             if get_expr_mode():
                 return expr(ExprArraySumModel(self.get_model()))
             else:
+                # The values of the elements (as indexing returns them),
+                # not the bit patterns the element models hold
                 ret = 0
-                for f in self.get_model().field_l:
-                    ret += int(f.get_val())
+                for i in range(len(self.get_model().field_l)):
+                    ret += int(self[i])
                 return ret
         else:
             raise Exception("Composite arrays do not have a sum")
@@ -960,8 +962,8 @@ class list_t(object):
                 return expr(ExprArrayProductModel(self.get_model()))
             else:
                 ret = 0 if self.size == 0 else 1
-                for f in self.get_model().field_l:
-                    ret *= int(f.get_val())
+                for i in range(len(self.get_model().field_l)):
+                    ret *= int(self[i])
                 return ret
         else:
             raise Exception("Composite arrays do not have a product")
